@@ -380,7 +380,13 @@ func fieldKey(recv types.Type, field string) string {
 
 func (fv *FuncVerifier) readField(st *State, ref Term, key string, fsort Sort) Term {
 	h := fv.heapGet(st, key, Sort(fmt.Sprintf("(Array Ref %s)", fsort)))
-	return App(fsort, "select", h, ref)
+	v := App(fsort, "select", h, ref)
+	if fsort == SRef && st.heapParams == nil && !strings.HasPrefix(key, "$") && !strings.Contains(v.S, "$") {
+		// the heap has no dangling references: what a pointer field holds is nil or allocated
+		al := fv.heapGet(st, "$ghost:alloc", "(Array Ref Bool)")
+		st.Assume(Or(App(SBool, "=", v, Null), App(SBool, "select", al, v)))
+	}
+	return v
 }
 
 func (fv *FuncVerifier) writeField(st *State, ref Term, key string, fsort Sort, v Term) {
@@ -869,7 +875,7 @@ func (fv *FuncVerifier) walkFields(st *State, env *Env, base Term, bt types.Type
 		if isPtr {
 			fv.oblige(st, env, "S", "nilderef", Not(App(SBool, "=", cur, Null)), site, "field access through non-nil pointer")
 			cur = fv.readField(st, cur, fieldKey(ct, f.Name()), fs)
-			if _, isMap := f.Type().Underlying().(*types.Map); isMap {
+			if _, isMap := f.Type().Underlying().(*types.Map); isMap && !strings.Contains(cur.S, "$") {
 				st.Assume(fv.typeInv(cur, f.Type()))
 			}
 		} else if fv.w.IsStruct(cur.Sort) {
